@@ -37,7 +37,18 @@ type Path struct {
 	CutTo   *ssa.BasicBlock
 	CutFrom *ssa.BasicBlock
 	// Env lets rules evaluate further values of the function on this path.
-	env *seeCtx
+	env    *seeCtx
+	segs   []seg   // instruction segments in execution order (callee bodies spliced in)
+	cur    *seeCtx // environment of the instruction being visited by Instrs
+	cutEnv *seeCtx // environment of the frame in which the back edge was taken (inlined helper loops)
+}
+
+// A seg is a run of instructions of one block, with the environment in which
+// their operands are to be evaluated (nil = the path's own final environment).
+type seg struct {
+	b        *ssa.BasicBlock
+	from, to int // [from, to) ; to < 0 = to the end of the block
+	env      *seeCtx
 }
 
 // BackEdgeValue returns, for a cut path, the expression flowing into header
@@ -48,24 +59,65 @@ func (p *Path) BackEdgeValue(ph *ssa.Phi) *Expr {
 	}
 	for i, pr := range p.CutTo.Preds {
 		if pr == p.CutFrom {
-			return p.env.of(ph.Edges[i])
+			return p.cutEnvOrEnv().of(ph.Edges[i])
 		}
 	}
 	return nil
 }
 
+func (p *Path) cutEnvOrEnv() *seeCtx {
+	if p.cutEnv != nil {
+		return p.cutEnv
+	}
+	return p.env
+}
+
 // Instrs calls f for every instruction executed on the path, in order.
 func (p *Path) Instrs(f func(ssa.Instruction)) {
-	for _, b := range p.Blocks {
-		for _, in := range b.Instrs {
-			f(in)
+	defer func() { p.cur = nil }()
+	if len(p.segs) == 0 {
+		for _, b := range p.Blocks {
+			for _, in := range b.Instrs {
+				f(in)
+			}
+		}
+		return
+	}
+	for _, sg := range p.segs {
+		to := sg.to
+		if to < 0 || to > len(sg.b.Instrs) {
+			to = len(sg.b.Instrs)
+		}
+		p.cur = sg.env
+		if p.cur == nil {
+			p.cur = p.env
+		}
+		for i := sg.from; i < to; i++ {
+			f(sg.b.Instrs[i])
 		}
 	}
 }
 
 // Of evaluates v (a value of the path's function) under the path's phi
 // choices and call bindings.
-func (p *Path) Of(v ssa.Value) *Expr { return p.env.of(v) }
+func (p *Path) Of(v ssa.Value) *Expr {
+	fn := v.Parent()
+	if fn == nil {
+		return p.env.of(v)
+	}
+	if p.cur != nil && p.cur.fn == fn {
+		return p.cur.of(v)
+	}
+	if p.env.fn == fn {
+		return p.env.of(v)
+	}
+	for i := len(p.segs) - 1; i >= 0; i-- {
+		if e := p.segs[i].env; e != nil && e.fn == fn {
+			return e.of(v)
+		}
+	}
+	return p.env.of(v)
+}
 
 // Visited reports whether block b lies on the path.
 func (p *Path) Visited(b *ssa.BasicBlock) bool {
@@ -105,7 +157,7 @@ func (x *Extractor) Paths(fn *ssa.Function, opts PathOpts) ([]*Path, error) {
 	}
 	pe := &pathEnum{x: x, opts: opts}
 	c := &seeCtx{x: x, params: map[*ssa.Parameter]*Expr{}, fvs: map[*ssa.FreeVar]*Expr{},
-		stack: map[*ssa.Function]bool{fn: true}, active: map[ssa.Value]bool{}, memo: map[ssa.Value]*Expr{}}
+		stack: map[*ssa.Function]bool{fn: true}, active: map[ssa.Value]bool{}, memo: map[ssa.Value]*Expr{}, fn: fn}
 	var out []*Path
 	pe.walk(c, fn, func(p *Path) { out = append(out, p) })
 	if pe.over {
@@ -118,22 +170,29 @@ type pstate struct {
 	atoms   []PathAtom
 	blocks  []*ssa.BasicBlock
 	visited map[*ssa.BasicBlock]bool
+	segs    []seg
 }
 
-// pos returns the position of an instruction on the path (block order ×
-// instruction index), if its block has been entered.
+// pos returns the position of an instruction on the path in execution order
+// (segment index × instruction index), if it has been reached.
 func (s *pstate) pos(in ssa.Instruction) (int, bool) {
 	b := in.Block()
-	for bi := len(s.blocks) - 1; bi >= 0; bi-- {
-		if s.blocks[bi] == b {
-			return bi*100000 + InstrBlockIndex(in), true
+	idx := InstrBlockIndex(in)
+	for si := len(s.segs) - 1; si >= 0; si-- {
+		sg := s.segs[si]
+		if sg.b != b || idx < sg.from {
+			continue
 		}
+		if sg.to >= 0 && idx >= sg.to {
+			continue
+		}
+		return si*100000 + idx, true
 	}
 	return 0, false
 }
 
 func (s *pstate) clone() *pstate {
-	n := &pstate{atoms: append([]PathAtom{}, s.atoms...), blocks: append([]*ssa.BasicBlock{}, s.blocks...), visited: map[*ssa.BasicBlock]bool{}}
+	n := &pstate{atoms: append([]PathAtom{}, s.atoms...), blocks: append([]*ssa.BasicBlock{}, s.blocks...), visited: map[*ssa.BasicBlock]bool{}, segs: append([]seg{}, s.segs...)}
 	for k := range s.visited {
 		n.visited[k] = true
 	}
@@ -141,12 +200,16 @@ func (s *pstate) clone() *pstate {
 }
 
 func (c *seeCtx) clone() *seeCtx {
-	n := &seeCtx{x: c.x, depth: c.depth, params: c.params, fvs: c.fvs, stack: c.stack, ps: c.ps, defAt: c.defAt,
+	n := &seeCtx{x: c.x, depth: c.depth, params: c.params, fvs: c.fvs, stack: c.stack, ps: c.ps, defAt: c.defAt, fn: c.fn,
 		active: map[ssa.Value]bool{}, memo: make(map[ssa.Value]*Expr, len(c.memo))}
 	for k, v := range c.memo {
 		n.memo[k] = v
 	}
 	return n
+}
+
+func (pe *pathEnum) walkOpts(c *seeCtx, fn *ssa.Function, emitCut bool, emit func(*Path)) {
+	pe.walk(c, fn, emit)
 }
 
 func (pe *pathEnum) walk(c *seeCtx, fn *ssa.Function, emit func(*Path)) {
@@ -168,12 +231,13 @@ func (pe *pathEnum) block(c *seeCtx, b, pred *ssa.BasicBlock, st *pstate, emit f
 				return
 			}
 			c.defAt = pred.Instrs[len(pred.Instrs)-1]
-			emit(&Path{Atoms: st.atoms, Blocks: st.blocks, Cut: true, CutTo: b, CutFrom: pred, env: c})
+			emit(&Path{Atoms: st.atoms, Blocks: st.blocks, Cut: true, CutTo: b, CutFrom: pred, env: c, segs: st.segs})
 		}
 		return
 	}
 	st.visited[b] = true
 	st.blocks = append(st.blocks, b)
+	st.segs = append(st.segs, seg{b: b, from: 0, to: -1})
 	// Loop headers: phis become loop symbols ("some iteration").
 	if isLoopHeader(b) {
 		for _, in := range b.Instrs {
@@ -228,9 +292,25 @@ func (pe *pathEnum) instrs(c *seeCtx, b *ssa.BasicBlock, i int, st *pstate, emit
 				}
 				next := i + 1
 				any := false
-				pe.walk(n, callee, func(cp *Path) {
+				pe.walkOpts(n, callee, pe.opts.EmitCut, func(cp *Path) {
 					if cp.Ret == nil {
-						return // callee panics or loops on this path; not continued
+						if cp.Cut && pe.opts.EmitCut {
+							// one iteration of a loop inside the helper: report it as a cut path of the caller
+							stc := st.clone()
+							stc.atoms = append(stc.atoms, cp.Atoms...)
+							stc.blocks = append(stc.blocks, cp.Blocks...)
+							if k := len(stc.segs) - 1; k >= 0 {
+								stc.segs[k].to = next
+							}
+							for _, cs := range cp.segs {
+								if cs.env == nil {
+									cs.env = cp.env
+								}
+								stc.segs = append(stc.segs, cs)
+							}
+							emit(&Path{Atoms: stc.atoms, Blocks: stc.blocks, Cut: true, CutTo: cp.CutTo, CutFrom: cp.CutFrom, env: c, segs: stc.segs, cutEnv: cp.cutEnvOrEnv()})
+						}
+						return // callee panics on this path; not continued
 					}
 					any = true
 					c2 := c.clone()
@@ -238,6 +318,18 @@ func (pe *pathEnum) instrs(c *seeCtx, b *ssa.BasicBlock, i int, st *pstate, emit
 					c2.ps = st2
 					st2.atoms = append(st2.atoms, cp.Atoms...)
 					st2.blocks = append(st2.blocks, cp.Blocks...)
+					// close the caller's segment after the call instruction, splice the callee's
+					// segments (bound to the callee environment), reopen the caller's block
+					if k := len(st2.segs) - 1; k >= 0 {
+						st2.segs[k].to = next
+					}
+					for _, cs := range cp.segs {
+						if cs.env == nil {
+							cs.env = cp.env
+						}
+						st2.segs = append(st2.segs, cs)
+					}
+					st2.segs = append(st2.segs, seg{b: b, from: next, to: -1})
 					if len(cp.Results) == 1 {
 						c2.memo[call] = cp.Results[0]
 					} else {
@@ -262,7 +354,15 @@ func (pe *pathEnum) instrs(c *seeCtx, b *ssa.BasicBlock, i int, st *pstate, emit
 		switch t := in.(type) {
 		case *ssa.If:
 			cond := c.of(t.Cond)
+			flipped := false
+			for cond.Op == OpUn && cond.Tok == token.NOT {
+				cond = cond.Args[0]
+				flipped = !flipped
+			}
 			if v, ok := FoldBool(cond); ok {
+				if flipped {
+					v = !v
+				}
 				k := 1
 				if v {
 					k = 0
@@ -276,7 +376,7 @@ func (pe *pathEnum) instrs(c *seeCtx, b *ssa.BasicBlock, i int, st *pstate, emit
 					c2, st2 = c.clone(), st.clone()
 					c2.ps = st2
 				}
-				st2.atoms = append(st2.atoms, PathAtom{cond, k == 0, t})
+				st2.atoms = append(st2.atoms, PathAtom{cond, (k == 0) != flipped, t})
 				if infeasible(st2.atoms) {
 					continue
 				}
@@ -292,7 +392,7 @@ func (pe *pathEnum) instrs(c *seeCtx, b *ssa.BasicBlock, i int, st *pstate, emit
 				pe.over = true
 				return
 			}
-			p := &Path{Atoms: st.atoms, Ret: t, Blocks: st.blocks, env: c}
+			p := &Path{Atoms: st.atoms, Ret: t, Blocks: st.blocks, env: c, segs: st.segs}
 			c.defAt = t
 			for _, r := range t.Results {
 				p.Results = append(p.Results, c.of(r))
@@ -305,7 +405,7 @@ func (pe *pathEnum) instrs(c *seeCtx, b *ssa.BasicBlock, i int, st *pstate, emit
 				pe.over = true
 				return
 			}
-			emit(&Path{Atoms: st.atoms, Panic: t, Blocks: st.blocks, env: c})
+			emit(&Path{Atoms: st.atoms, Panic: t, Blocks: st.blocks, env: c, segs: st.segs})
 			return
 		}
 	}
